@@ -301,7 +301,12 @@ def g_stmt(g, env, in_loop, ret, depth):
         return [("for", i, g.draw(st.integers(1, 3)), body)]
     if r == 14 and in_loop:
         g.labels.add("break_continue")
-        return [("if", g_expr(g, env, BOOL, 1, True), [(g.pick(["break", "continue"]),)], [])]
+        jump = (g.pick(["break", "continue", "continue"]),)
+        if g.coin(1, 3):
+            # the jump in the else arm, after a statement in the then arm
+            g.labels.add("jump_in_else_arm")
+            return [("if", g_expr(g, env, BOOL, 1, True), [("out", g_expr(g, env, INT, 1))], [jump])]
+        return [("if", g_expr(g, env, BOOL, 1, True), [jump], [])]
     if r == 15 and ret is not None and depth > 0:
         g.labels.add("early_return")
         return [("if", g_expr(g, env, BOOL, 1, True), [("return", g_expr(g, env, ret, 1))], [])]
@@ -387,7 +392,17 @@ class Rd:
         if k == "var":
             return self.v + x[1]
         if k == "bin":
-            return "(%s %s %s)" % (self.e(x[2]), x[1], self.e(x[3]))
+            # precedence-aware: parentheses only where the tree needs them (2 * 3 + 4, 10 - 2 * 3, (1 + 2) * 3)
+            prec = {"+": 1, "-": 1, "*": 2}
+            def sub(e, right):
+                t = self.e(e)
+                if e[0] == "bin":
+                    inner = t[1:-1] if t.startswith("(") and t.endswith(")") and self._balanced(t[1:-1]) else t
+                    if prec[e[1]] > prec[x[1]] or (prec[e[1]] == prec[x[1]] and not right):
+                        return inner
+                    return "(" + inner + ")"
+                return t
+            return "(%s %s %s)" % (sub(x[2], False), x[1], sub(x[3], True))
         if k == "cmp":
             return "(%s %s %s)" % (self.e(x[2]), x[1], self.e(x[3]))
         if k == "and":
@@ -403,6 +418,18 @@ class Rd:
         if k == "call":
             return "%s(%s)" % (x[1], ", ".join(self.e(a) for a in x[2]))
         raise AssertionError(k)
+
+    @staticmethod
+    def _balanced(t):
+        d = 0
+        for ch in t:
+            if ch == "(":
+                d += 1
+            elif ch == ")":
+                d -= 1
+                if d < 0:
+                    return False
+        return d == 0
 
     # statements --------------------------------------------------------------------------
     def block(self, stmts, level):
